@@ -146,6 +146,14 @@ def families(env):
             prev, a = (a, nxt) if pattern == "fib" else (nxt, nxt)
         return mgr.Equals(mgr.Select(a, mgr.Int(-1)), il[1])
     F["select-const-store"] = select_const_store
+    # directly nested conjunctions / disjunctions (what the partition functions walk through); simplify and
+    # propagate_toplevel flatten them (documented, quadratic result) and are not measured on these two
+    F["and-direct"] = bool_fam(lambda a, b: mgr.And(mgr.And(a, bl[3]), mgr.And(b, bl[4])), lambda t, i: mgr.And(t, bl[i % 5]))
+    F["or-direct"] = bool_fam(lambda a, b: mgr.Or(mgr.Or(a, bl[3]), mgr.Or(b, bl[4])), lambda t, i: mgr.Or(t, bl[i % 5]))
+    # division by the constant zero (kept as a term, with a warning)
+    zr = mgr.Real(0)
+    F["div-by-zero"] = term_fam(rl, lambda a, b: mgr.Plus(mgr.Div(a, zr), mgr.Ite(bl[0], b, oner)), lambda t, i: mgr.Minus(t, oner),
+                                lambda t: mgr.LE(mgr.Div(t, zr), rl[1]))
     # uninterpreted functions applied to shared arguments
     fI = mgr.Symbol("fII", tm.FunctionType(I, [I, I]))
     F["uf-apply"] = term_fam(il, lambda a, b: mgr.Function(fI, [a, b]), lambda t, i: mgr.Plus(t, one),
@@ -186,6 +194,13 @@ def operations(env):
     def printparse(f):
         text = dagprint(f)
         return SmtLibParser(env).get_script(StringIO(text)).get_last_formula()
+
+    def reserialize(f):
+        # a script that comes from the parser, written again in DAG form
+        sc = SmtLibParser(env).get_script(StringIO(dagprint(f)))
+        buf = StringIO()
+        sc.serialize(buf, daggify=True)
+        return buf.getvalue()
     return {
         "simplify": lambda f: env.simplifier.simplify(f),
         "substitute": lambda f: env.substituter.substitute(f, {b0: mgr.Symbol("lBool_4", pt.BOOL), i0: mgr.Plus(i0, mgr.Int(2))}),
@@ -202,6 +217,10 @@ def operations(env):
         "aig": lambda f: rw.aig(f, env),
         "dag-print": dagprint,
         "print-parse": printparse,
+        "script-reserialize": reserialize,
+        "conj-partition": lambda f: list(rw.conjunctive_partition(f)),
+        "disj-partition": lambda f: list(rw.disjunctive_partition(f)),
+        "propagate-toplevel": lambda f: rw.propagate_toplevel(f, env),
         "get_type": lambda f: env.stc.get_type(f),
     }
 
@@ -220,6 +239,9 @@ def dag_size(f):
 
 K_BUDGET = 6000
 DOUBLING = 2.6
+
+
+FAMILY_SKIP = {"and-direct": {"simplify", "propagate-toplevel"}, "or-direct": {"simplify", "propagate-toplevel"}}
 
 
 def check_family(run, fam, pattern, n, ops_subset=None):
@@ -241,7 +263,7 @@ def check_family(run, fam, pattern, n, ops_subset=None):
             nodes = dag_size(f)
             results[("construct", size)] = (w, nodes)
             for name, op in operations(env).items():
-                if ops_subset and name not in ops_subset:
+                if (ops_subset and name not in ops_subset) or name in FAMILY_SKIP.get(fam, ()):
                     continue
                 try:
                     w, _ = measure(lambda: op(f), K_BUDGET * nodes + 50000)
@@ -296,7 +318,7 @@ def check_deep(run, fam, depth, ops_subset=None):
                      "constructing a %s chain of depth %d hits the recursion limit" % (fam, depth))
             return
         for name, op in operations(env).items():
-            if ops_subset and name not in ops_subset:
+            if (ops_subset and name not in ops_subset) or name in FAMILY_SKIP.get(fam, ()):
                 continue
             run.case(key=(fam, "deep", name, depth), nontrivial=True)
             run.cls("deep:" + name)
@@ -323,7 +345,7 @@ def job(items):
 FAMS = ["and", "or", "implies", "iff", "not-and", "ite-bool-cond", "ite-bool-then", "ite-bool-else", "plus-minus",
         "times-ite", "ite-int-then", "ite-int-else", "bvadd", "bvxor-neg", "bvmul-lshr", "bv-ite-then", "bv-ite-both", "bv-ite-direct", "bv-ite-tower", "int-ite-tower",
         "bvextract-concat", "store-select", "times-div", "select-const-store", "uf-apply", "str-concat-replace",
-        "toreal-consts", "bv-rot-ext-comp"]
+        "toreal-consts", "bv-rot-ext-comp", "and-direct", "or-direct", "div-by-zero"]
 
 
 def main():
